@@ -1,6 +1,8 @@
 /-
   ICG.Lemmas.SpecSA — the mathematics of the superadditive bound specification (`ICG.Spec.Bounds`),
   for every number of players `n` and every ordered abelian group of values.
+  Everything lives in `namespace ICG.SpecSA` (so that short names such as `loSpec_known` cannot collide with
+  the refinement lemmas in `namespace ICG`); use `open ICG.SpecSA` or qualified names.
 
   part 1 (`SpecSA1`): A unfolding / no junk under `MinInfo`  (`loSpec_known`, `loSpec_unknown`, `upSpec_known`,
                         `upSpec_unknown`, `properSubs_ne_nil`, `knownSupers_ne_nil`, `loSpec_split_le`,
